@@ -519,6 +519,7 @@ pub fn c18(tier: Tier, _seed: u64) -> Prop {
             }
             json!({"states": iters.max(1), "transitions": iters.max(1), "traces_validated_against_impl": runs, "complete_runs": runs})
         }),
+        profiles: vec!["release"],
     }
 }
 
